@@ -2,7 +2,7 @@
    The arithmetic is proved for every INTEGER; "a value of one enumerated type can never be stored in a variable of a different
    enumerated type" is proved over the whole evaluator as a heap invariant (program logic of Lemmas_ConstLogic.v: the payload of every
    cell carries the name of the cell's declared type, through every store channel including record and array copies). *)
-From PE2 Require Import Eval Run Enums Lemmas_Enums Lemmas_ConstLogic Lemmas_ConstThm.
+From PE2 Require Import Eval Run Enums Lemmas_Enums Lemmas_ConstLogic Lemmas_ConstThm Lemmas_EnumStates.
 Local Open Scope Z_scope.
 
 (* position + k modulo the number of names, for every INTEGER k and every intermediate sign;
@@ -37,3 +37,21 @@ Proof.
   split; [symmetry; exact Hk|apply Hn; reflexivity].
 Qed.
 Print Assumptions C19_enum_results_carry_their_type.
+
+(* the arithmetic as the evaluator performs it, in every state: for a value of the enumerated type tn (its definition, with at
+   least one name, found from the current context) at position i and an INTEGER k, `e + k` and `e - k` yield the value of the SAME
+   type at position enum_arith .. i k n = (i +/- k) mod n (C19_add_cyclic), and `k + e` the same with the operands in that order;
+   nothing in the state changes *)
+Theorem C19_evaluator_enum_plus_or_minus_integer : forall t c s tn i k vals,
+  (tt t = TPLUS \/ tt t = TMINUS) -> lookup_enum_def c tn true s = (Ok (Some vals), s) -> vals <> [] ->
+  eval_arith t c (mkRes (mkDT KEnum (Some tn)) (Some (PEnum tn i))) (res_of KInt (PInt k)) s =
+    (Ok (mkRes (mkDT KEnum (Some tn)) (Some (PEnum tn (enum_arith (tt_eqb (tt t) TPLUS) i k (Z.of_nat (List.length vals)))))), s).
+Proof. exact enum_plus_or_minus_integer. Qed.
+Print Assumptions C19_evaluator_enum_plus_or_minus_integer.
+
+Theorem C19_evaluator_integer_plus_enum : forall t c s tn i k vals,
+  tt t = TPLUS -> lookup_enum_def c tn true s = (Ok (Some vals), s) -> vals <> [] ->
+  eval_arith t c (res_of KInt (PInt k)) (mkRes (mkDT KEnum (Some tn)) (Some (PEnum tn i))) s =
+    (Ok (mkRes (mkDT KEnum (Some tn)) (Some (PEnum tn (enum_arith true k i (Z.of_nat (List.length vals)))))), s).
+Proof. exact integer_plus_enum. Qed.
+Print Assumptions C19_evaluator_integer_plus_enum.
